@@ -12,9 +12,14 @@ package data
 //@ pure func sortedStrict(a []int) bool = forall i, j int :: 0 <= i && i < j && j < len(a) ==> a[i] < a[j]
 //@ pure func inv(s IntSet) bool = sortedStrict(s.data)
 //@ -- abstract view: x is a member of the set held in slice a
-//@ opaque func member(a []int, x int) bool = exists k int :: 0 <= k && k < len(a) && a[k] == x
+//@ opaque func Member(a []int, x int) bool = exists k int :: 0 <= k && k < len(a) && a[k] == x
 
-//@ opaque func memberN(a []int, n int, x int) bool = exists k int :: 0 <= k && k < n && a[k] == x
+//@ opaque func MemberN(a []int, n int, x int) bool = exists k int :: 0 <= k && k < n && a[k] == x
+
+//@ -- exported spec accessors for contracts of other packages
+//@ pure func ElemsOf(s IntSet) []int = s.data
+//@ pure func MapOf(m IntMap) map[int]int = m.data
+//@ pure func Inv(s IntSet) bool = sortedStrict(s.data)
 
 //@ assume func sort.SearchInts(a []int, x int) (r int)
 //@   ensures 0 <= r && r <= len(a)
@@ -32,32 +37,32 @@ package data
 //@   ensures  [grow] len(s.data) == old(len(s.data)) || len(s.data) == old(len(s.data)) + 1
 //@   ensures  [shape-old] forall k int :: 0 <= k && k < old(len(s.data)) ==> (old(s.data[k]) == s.data[k] || (k+1 < len(s.data) && old(s.data[k]) == s.data[k+1]))
 //@   ensures  [shape-new] forall k int :: 0 <= k && k < len(s.data) ==> (s.data[k] == v || (k < old(len(s.data)) && s.data[k] == old(s.data[k])) || (k >= 1 && s.data[k] == old(s.data[k-1])))
-//@   ensures  [has-v] member(s.data, v)
-//@   ensures  [member] forall x int :: member(s.data, x) == (old(member(s.data, x)) || x == v)
-//@   ensures  [inplace] old(member(s.data, v)) ==> same(s.data, old(s.data))
+//@   ensures  [has-v] Member(s.data, v)
+//@   ensures  [member] forall x int :: Member(s.data, x) == (old(Member(s.data, x)) || x == v)
+//@   ensures  [inplace] old(Member(s.data, v)) ==> same(s.data, old(s.data))
 //@   ensures  [fresh-or-inplace] fresh(s.data) || array(s.data) == old(array(s.data))
 //@   assigns  s.data, cells(s.data)
 
 //@ func (s IntSet) Insert(v int) (r IntSet)
 //@   requires inv(s)
 //@   ensures  inv(r)
-//@   ensures  [member] forall x int :: member(r.data, x) == (member(s.data, x) || x == v)
+//@   ensures  [member] forall x int :: Member(r.data, x) == (Member(s.data, x) || x == v)
 //@   assigns  nothing
 
 //@ func NewIntSet(values ...int) (r IntSet)
 //@   ensures  inv(r)
-//@   ensures  [member] forall x int :: member(r.data, x) == member(values, x)
+//@   ensures  [member] forall x int :: Member(r.data, x) == Member(values, x)
 //@   assigns  nothing
 //@ loop 1 (i IntSet, n rangeindex)
 //@   invariant 0 <= n && n <= len(values)
 //@   invariant inv(i) && fresh(i.data)
-//@   invariant [from] forall k int :: 0 <= k && k < len(i.data) ==> memberN(values, n, i.data[k])
-//@   invariant [to] forall k int :: 0 <= k && k < n ==> member(i.data, values[k])
+//@   invariant [from] forall k int :: 0 <= k && k < len(i.data) ==> MemberN(values, n, i.data[k])
+//@   invariant [to] forall k int :: 0 <= k && k < n ==> Member(i.data, values[k])
 
 //@ func (a IntSet) Union(b IntSet) (r IntSet)
 //@   requires inv(a) && inv(b)
 //@   ensures  inv(r)
-//@   ensures  [member] forall x int :: member(r.data, x) == (member(a.data, x) || member(b.data, x))
+//@   ensures  [member] forall x int :: Member(r.data, x) == (Member(a.data, x) || Member(b.data, x))
 //@   assigns  nothing
 //@ loop 1 (i3 IntSet, n1 int, n2 int)
 //@   invariant 0 <= n1 && n1 <= len(a.data) && 0 <= n2 && n2 <= len(b.data)
@@ -65,9 +70,9 @@ package data
 //@   invariant sortedStrict(i3.data)
 //@   invariant [below-a] n1 < len(a.data) ==> forall k int :: 0 <= k && k < len(i3.data) ==> i3.data[k] < a.data[n1]
 //@   invariant [below-b] n2 < len(b.data) ==> forall k int :: 0 <= k && k < len(i3.data) ==> i3.data[k] < b.data[n2]
-//@   invariant [from] forall k int :: 0 <= k && k < len(i3.data) ==> memberN(a.data, n1, i3.data[k]) || memberN(b.data, n2, i3.data[k])
-//@   invariant [to-a] forall k int :: 0 <= k && k < n1 ==> member(i3.data, a.data[k])
-//@   invariant [to-b] forall k int :: 0 <= k && k < n2 ==> member(i3.data, b.data[k])
+//@   invariant [from] forall k int :: 0 <= k && k < len(i3.data) ==> MemberN(a.data, n1, i3.data[k]) || MemberN(b.data, n2, i3.data[k])
+//@   invariant [to-a] forall k int :: 0 <= k && k < n1 ==> Member(i3.data, a.data[k])
+//@   invariant [to-b] forall k int :: 0 <= k && k < n2 ==> Member(i3.data, b.data[k])
 //@   decreases len(a.data) + len(b.data) - n1 - n2
 
 //@ -- IntMap: abstract view is (dom(m.data, k), m.data[k]) with absent keys reading 0
@@ -96,8 +101,10 @@ package data
 //@   ensures  fresh(r) && len(r) == len(m.data)
 //@   ensures  [sound] forall j int :: 0 <= j && j < len(r) ==> dom(m.data, r[j])
 //@   ensures  [distinct] forall i, j int :: 0 <= i && i < j && j < len(r) ==> r[i] != r[j]
+//@   ensures  [complete] forall k int :: dom(m.data, k) ==> Member(r, k)
 //@   assigns  nothing
 //@ loop 1 (n int, keys []int)
+//@   invariant [seen] forall k int :: visited(k) ==> MemberN(keys, n, k)
 //@   invariant n == itercount() && 0 <= n && n <= len(keys)
 //@   invariant forall j int :: 0 <= j && j < n ==> dom(m.data, keys[j]) && visited(keys[j])
 //@   invariant forall i, j int :: 0 <= i && i < j && j < n ==> keys[i] != keys[j]
